@@ -253,3 +253,29 @@ Proof.
   split; [apply map_length|]. intros s. apply Hpart.
   unfold matches, all_any. clear. induction (pf_free p) as [|v l IH]; cbn [map]; constructor; auto. exact I.
 Qed.
+
+(** ---- C01 / C08 / C09 composed over a text ---- *)
+Theorem C01_text uc ord txt p n b :
+  parsed_formula uc ord txt = Done p -> eval_f n (pf_form p) = Some b ->
+  exists ts, tokenize uc ord txt = Some ts /\ G_formula ts (pf_form p) /\      (* the tree is the grammar's (C08) *)
+    Den empty (pf_form p) (bden b) /\ robdd b /\                               (* the answer is its meaning (C01), canonical (C02) *)
+    (forall x, In x (support b) -> In x (pf_free p)) /\                        (* and mentions free variables only (C09) *)
+    (b = T <-> forall s, beval s b = true) /\ (b = F <-> forall s, beval s b = false).
+Proof.
+  unfold parsed_formula. destruct (tokenize uc ord txt) as [ts|] eqn:Ht; [|discriminate].
+  intros Hp He. exists ts. split; [reflexivity|].
+  destruct (pf_vars_spec ts p Hp) as (_ & _ & Hvars & Hfree & _).
+  assert (Hparse : exists f r, parse ts = Ok f r /\ pf_form p = f).
+  { unfold parsed_of_tokens in Hp. destruct (parse ts) as [f r| |]; try discriminate. inversion Hp; subst p. eauto. }
+  destruct Hparse as (f & r & Hpar & Hf). destruct (parse_vars ts f r Hpar) as [Hns Hfv]. rewrite <- Hf in Hns, Hfv.
+  assert (Hr : r = []). { unfold parse, parse_f in Hpar. destruct (p_sub _ ts) as [g [|t rest]| |]; try discriminate. destruct t; try discriminate. inversion Hpar; reflexivity. }
+  subst r.
+  destruct (sound n _ b (nofsub_wf _ Hns) He) as [HD Hrb].
+  split.
+  { rewrite Hf. exact (C08_sound_lexed _ ts f (tokenize_eof_last uc ord txt ts Ht) Hpar). }
+  split; [exact HD|]. split; [exact Hrb|]. split.
+  { intros x Hx. rewrite Hfree. apply filter_In. pose proof (support_fv n _ b Hns He x Hx) as Hx'. split; [apply Hvars, Hfv, Hx'|apply fv_le_free; auto]. }
+  split.
+  - split; [intros ->; reflexivity|apply robdd_valid; exact Hrb].
+  - split; [intros ->; reflexivity|apply robdd_unsat; exact Hrb].
+Qed.
